@@ -300,6 +300,9 @@ pub fn block_on<F: Future>(fut: F) -> F::Output {
 pub struct RecQueue<const N: usize> {
     inner: StaticErrorQueue<N>,
     pub rec: Vec<String>,
+    /// Quiet mode (`ALLOC` ops): pushed errors are only counted.
+    pub quiet: bool,
+    pub count: usize,
 }
 
 impl<const N: usize> ErrorQueue for RecQueue<N> {
@@ -308,7 +311,12 @@ impl<const N: usize> ErrorQueue for RecQueue<N> {
     }
 
     fn push_error(&mut self, error: Error) {
-        self.rec.push(fmt_err(error));
+        if self.quiet {
+            self.count += 1;
+        }
+        else {
+            self.rec.push(fmt_err(error));
+        }
         self.inner.push_error(error);
     }
 
@@ -340,4 +348,8 @@ pub trait TestIface: microscpi::Interface + Default {
     fn errs(&self) -> Vec<String>;
     fn queue(&mut self) -> Vec<String>;
     fn set_pend(&mut self, k: usize);
+    /// Quiet mode (`ALLOC` ops): handlers, error handler and error queue do
+    /// not record anything (they only count), so that nothing in the harness
+    /// allocates while the library runs.
+    fn set_quiet(&mut self, quiet: bool);
 }
